@@ -81,6 +81,7 @@ func scenarios(tier string) []engine.Scenario {
 	scs = append(scs, bignumScenarios(tier)...)
 	scs = append(scs, compositeScenarios(tier)...)
 	scs = append(scs, mod1Scenarios(tier)...)
+	scs = append(scs, inverseScenarios(tier)...)
 	return scs
 }
 
@@ -130,7 +131,7 @@ func expect(tier string) []string {
 	for _, sq := range histSequences {
 		e = append(e, "history-sequence="+histSeqName(sq))
 	}
-	e = append(e, "composite=inverse.GoldschmidtDivisionNew", "composite=doc-examples", "composite-bootstrapped=yes", "composite-bootstrapped=no",
+	e = append(e, "composite=inverse.GoldschmidtDivisionNew", "composite=inverse.EvaluatePositiveDomainNew", "composite=inverse.EvaluateNegativeDomainNew", "composite=inverse.EvaluateFullDomainNew", "inverse-normalisation=yes", "inverse-normalisation=no", "composite=doc-examples", "composite=default-sign-slot-judged", "composite=default-sign-slot-tight", "composite-bootstrapped=yes", "composite-bootstrapped=no",
 		"bignum=Evaluate/monomial", "bignum=Evaluate/chebyshev[-3,5]", "bignum=ChangeOfBasis", "bignum=Depth", "bignum=Factorize/monomial", "bignum=Factorize/chebyshev", "bignum=ChebyshevApproximation")
 	return e
 }
